@@ -348,3 +348,7 @@ impl SegmentLogReader {
         .await?
     }
 }
+
+#[cfg(kani)]
+#[path = "/verif/harness/server/hooks/log_reader.rs"]
+pub(crate) mod verif_hook;
